@@ -164,14 +164,14 @@ def norm_script(recipe_in, out_ctx: vx.OutCtx):
     return steps
 
 
-def process(job):
+def process(job, shared=None):
     """job: {recipe, nv, ns, nf, rank | creation, mode: 'auto'|'doit'|'diff', envs: [env json], trace: bool}"""
     t0 = time.time()
     recipe = totuple(job["recipe"])
     res = {"id": job.get("id"), "mode": job["mode"], "rank": job.get("rank"), "creation": job.get("creation")}
     from symplyphysics.core.experimental import vectors as V  # pylint: disable=import-outside-toplevel
     try:
-        o = vx.Objs(job["nv"], job["ns"], job.get("nf", 0), rank=job.get("rank"), creation=job.get("creation"),
+        o = shared or vx.Objs(job["nv"], job["ns"], job.get("nf", 0), rank=job.get("rank"), creation=job.get("creation"),
             spread=job.get("spread"), spread_rng=__import__("random").Random(job.get("spread_seed", 0)),
             same_name=bool(job.get("same_name")), nfun2=job.get("nfun2", 0))
         res["id_rank"] = o.id_rank()
